@@ -46,7 +46,7 @@ artefacts are in `seeded/<id>/` (`patch.diff`, `demo.py`, `notes.md`, `meta.json
 |---|---|---|---|---|
 ''' + "\n".join(rows) + '''
 
-**What the misses taught.** Four waves (20 + 20 + 40 + 20 changes; the fourth wave's agents were told that every filter with up to three operators over a small alphabet is already compared and asked for something beyond such a sweep). After each wave the checks that
+**What the misses taught.** Five waves of seeded bugs (20 + 20 + 40 + 20 + 20 changes, the fifth - `*-w7` - on the tree repaired after the bug hunt; the fourth wave's agents were told that every filter with up to three operators over a small alphabet is already compared and asked for something beyond such a sweep). After each wave the checks that
 missed a change were strengthened *in kind* (not by adding the failing input), all
 checks were re-run on the unchanged tree, and every earlier seed was re-checked
 (`tools/seed_recheck.sh`, also with another `VERIF_SEED`). All seeds above are detected by
@@ -87,6 +87,14 @@ the committed quick tier of their own property. The recurring blind spots:
   rarely used node kind in every well-typed argument position (C12), handlers attached
   after the first visit (C16), AST well-formedness of the returned node (C10), the nesting
   ORDER of unary-like operators over the same leaves (C09).
+* *Wave 7* (fresh changes on the repaired tree, 15 of 20 reported at once): a precedence row turned `nonassoc` put `None` entries into
+  the LR action table and the table walker of C05 crashed before the violations of earlier layers were printed - the runner now
+  reports violations found before a later layer fails, and the walker skips error entries; duration counts beyond the next unit
+  (`P12M`, `PT90M`; C06); contents that exhaust a translator's choice of escape character (every punctuation character but one, every
+  prefix of the punctuation; C07); a translation that leaves something behind in the tree it was given, visible only when a
+  base-class operation runs on the same object afterwards (C16 `shared-tree-histories`); a collection path that starts with the
+  lambda variable's own name (C14). Two older seeds (`C12-w3A`, `C20-w3B`) are *neutralised*: their own demonstrations pass on the
+  repaired tree, because `658c9d9` and `74e0d3a` removed the weakness they exploited (`meta.json` `neutralised_by`).
 * *Beyond the small-term sweep* (wave 4): behaviour that changes only past a size or depth
   threshold (a nesting counter, a "long list" fast path, a memo that only fills at depth
   five, balancing of long `and` chains). Every term-based check now has a *pumped* layer:
